@@ -9,6 +9,7 @@ Graph record (atoms listed by rank of their integer label -- for labels 0..n-1 r
     p         : partition (absent = -1)
     tag       : value of the driver's TAG attribute (absent = 0)
     attr      : canonical rendering of ALL node attributes except partition
+    attrx     : ... except partition, invariant code and the driver's tag;  ic : the invariant code as [Z, mass, rad] or []
     mattr     : canonical rendering of the chemically meaningful attributes only
 A graph whose labels are not integers has no record: `project` returns {"bad": reason}.
 """
@@ -61,6 +62,13 @@ def _small(v, absent=0):
     return fingerprint(v)
 
 
+def _code(v):
+    """the invariant code as a list of three numbers ([] when it is absent or something else)"""
+    if isinstance(v, (tuple, list)) and len(v) == 3 and all(isinstance(x, int) and not isinstance(x, bool) for x in v):
+        return [fingerprint(x) for x in v]
+    return []
+
+
 def project(g, keep_scratch=True):
     nodes = list(g.nodes)
     n = len(nodes)
@@ -81,6 +89,8 @@ def project(g, keep_scratch=True):
                       "hm": "mass" in d, "hr": "rad" in d, "hc": "chg" in d, "p": p,
                       "tag": _small(d.get(TAG)) or 0,
                       "attr": render_attrs(d, skip=("partition",)),
+                      "attrx": render_attrs(d, skip=("partition", "invariant_code", TAG)),
+                      "ic": _code(d.get("invariant_code")),
                       "mattr": render_attrs(d, only=MEANINGFUL)})
     edges = []
     for a, b, d in g.edges(data=True):
